@@ -538,6 +538,12 @@ func c13RunConfig(col *concCollector, c [4]string, seed int64, dur time.Duration
 	if e.storage == "disk" {
 		e.maxFirst = 6 + int64(dur/(1000*time.Millisecond))
 	}
+	// ... and bounded: one refresh costs O(known locations), the calls queue behind one mutex, so with 160 locations (a
+	// thorough run of 60 s under the race detector) a queued refresh waits for minutes without any dead-lock and the
+	// watchdog (100 s) fired on the unchanged tree. A longer run adds interleavings, not state.
+	if lim := int64(map[bool]int{true: 14, false: 30}[e.storage == "disk"]); e.maxFirst > lim {
+		e.maxFirst = lim
+	}
 	e.ca = NewCA(CAOpts{CN: "C13 CA " + e.name, EC: true})
 	e.ca2 = NewCA(CAOpts{CN: "C13 CA " + e.name, EC: true}) // same name, other key: a re-keyed CRL issuer
 	e.origin = NewConcOrigin()
